@@ -552,22 +552,27 @@ CONTRACTS = CONTRACTS + [decode_fast_variant(False, False), decode_fast_variant(
 # ------------------------------------------------------------------------------------------------------------------ C10: the scan loop of repair_dna
 CONTRACTS = CONTRACTS + [dict(
     name="dsw.spiderweb.repair_dna#scan", function="dsw.spiderweb.repair_dna", variant_of="dsw.spiderweb.repair_dna", n_loops=7,
-    # PARTIAL contract: the obligations end with the scan loop (loop 1).  The three bookkeeping lists (lists of strings / of arrays) are opaque:
-    # the statements that only update them are skipped, so exceptions those statements could raise are NOT covered here (bounded tier).
-    stop_after_loop=1, opaque=("split_sequences", "chuck_sequences", "index_markers"),
+    # PARTIAL contract: the obligations end with the scan loop (loop 1).  The three bookkeeping lists (lists of strings / of arrays) are length-only
+    # lists (`list_counted`): every statement of the loop is executed, `split_sequences[-1]` needs a non-empty list (an IndexError obligation), the
+    # expressions appended are evaluated with their own obligations; the elements themselves are not tracked.
+    stop_after_loop=1, types={"split_sequences": "list_counted", "chuck_sequences": "list_counted", "index_markers": "list_counted"},
     params={"dna_sequence": "dna", "accessor": "mat(ipow(4, observed_length), 4)", "start_index": "nat", "observed_length": "nat",
             "vt_check": "none", "has_indel": "bool", "heap_size": "nat"},
     requires={"graph": "observed_length >= 1 and is_accessor(accessor, observed_length)", "start": "start_index < ipow(4, observed_length)",
               "one-window": "len(dna_sequence) >= observed_length"},
-    returns="none", ensures={}, raises={},
+    returns="none",
+    # what the later phases rely on: one chunk and one look-back marker per detected error, one more segment than errors
+    ensures={"lists-in-step": "len(split_sequences) == detected_count + 1 and len(chuck_sequences) == detected_count and len(index_markers) == detected_count"},
+    raises={},
     ghost={"entry": "ipow_mono(4, 0, observed_length)",
            "after_assign:vertex_index": "sl = dna_sequence[location + 1: location + observed_length + 1]\n"
                                         "pv_bound(A(codes(sl)), 0, P(sl, 0), P(sl, len(sl)), 4)\n"
                                         "ipow_mono(4, len(sl), observed_length)"},
     loops={1: dict(binds="location < len(dna_sequence)", invariant={
-        "cursor": "0 <= location",
+        "cursor": "0 <= location and detected_count >= 0",
         "vertex-in-range": "0 <= vertex_index and vertex_index < ipow(4, observed_length)",
         "queue-length": "len(index_queue) == len(dna_sequence)",
+        "lists-in-step": "len(split_sequences) == detected_count + 1 and len(chuck_sequences) == detected_count and len(index_markers) == detected_count",
     }, variant="len(dna_sequence) - location")},
 )]
 
@@ -730,7 +735,7 @@ CONTRACTS = CONTRACTS + [dict(
     name="dsw.spiderweb.repair_dna#detect", function="dsw.spiderweb.repair_dna", variant_of="dsw.spiderweb.repair_dna", n_loops=7,
     # PARTIAL contract ending with the scan loop (as #scan): an error is detected (the scan loop's counter leaves 0) exactly when the strand is not a walk
     # of the graph from the start vertex - for every strand, not only singly edited ones.
-    stop_after_loop=1, opaque=("split_sequences", "chuck_sequences", "index_markers"),
+    stop_after_loop=1, types={"split_sequences": "list_counted", "chuck_sequences": "list_counted", "index_markers": "list_counted"},
     params={"dna_sequence": "dna", "accessor": "mat(ipow(4, observed_length), 4)", "start_index": "nat", "observed_length": "nat",
             "vt_check": "none", "has_indel": "bool", "heap_size": "nat"},
     requires={"graph": "observed_length >= 1 and is_accessor(accessor, observed_length)", "start": "start_index < ipow(4, observed_length)",
@@ -752,5 +757,6 @@ CONTRACTS = CONTRACTS + [dict(
         "queue-length": "len(index_queue) == len(dna_sequence)",
         "clean-so-far": "implies(detected_count == 0, location <= len(dna_sequence) and vertex_index == walkv(accessor, dna_sequence, start_index, location))",
         "dirty-for-good": "implies(detected_count != 0, walkv(accessor, dna_sequence, start_index, len(dna_sequence)) < 0)",
+        "one-segment-at-least": "len(split_sequences) >= 1",
     }, variant="len(dna_sequence) - location")},
 )]
